@@ -10,20 +10,22 @@ Local Open Scope N_scope.
    ("after every operation of every history on ns container variables the model of
    con::Container shows the return value / exception, the contents of every container, the
    number of live elements and the absence of lifetime errors that the list specification
-   shows") is FALSE of the faithful model: four refutations below, each confirmed on the real
+   shows") is FALSE of the faithful model: three refutations below, each confirmed on the real
    code by harness/C18con.cpp (same observations as the model).  It is proved for every
    history that avoids the defective calls; [safe_hist] is decided on the specification state
-   alone and rejects exactly: SetNumObjects(n) with n < NumObjects(), InsertObjectAt(i, _) with
-   1 <= i <= NumObjects() + 1, Resize(0) on a non-empty container. *)
+   alone and rejects exactly: InsertObjectAt(i, _) with 1 <= i <= NumObjects() + 1 (does not
+   compile with the default allocator) and Resize(0) on a non-empty container (the code's
+   "free the list" idiom).  SetNumObjects below the length is covered since the repair of
+   /repo commit ae1a912 (the cut-off elements are destructed): see C18con_SetNumObjects_shrink. *)
 Theorem C18con_container_refines_list_on_safe_histories :
   forall (ns : N) (ops : list op),
     safe_hist ns ops = true -> run ns ops = spec_run ns ops.
 Proof. exact run_refines_spec. Qed.
 Print Assumptions C18con_container_refines_list_on_safe_histories.
 
-(* in particular for ALL histories over the other 23 operations (AddObject (3 forms),
+(* in particular for ALL histories over the other 24 operations (AddObject (3 forms),
    AddUniqueObject, AddObjectAt, SetObjectAt, RemoveObjectAt, RemoveObject (2 forms), ObjectAt,
-   IndexOfObject, ObjectInList, SetNumObjectsUninitialized, Shrink, ClearObjectList,
+   IndexOfObject, ObjectInList, SetNumObjects, SetNumObjectsUninitialized, Shrink, ClearObjectList,
    FreeObjectList, Sort, the four constructors, copy and move assignment) *)
 Theorem C18con_container_refines_list_without_defective_operations :
   forall (ns : N) (ops : list op),
@@ -38,12 +40,6 @@ Theorem C18con_capacity_covers_contents :
     Forall (fun p => Forall2 (fun l c => len l <= c) (o_slots (fst p)) (snd p)) (run_full ns ops).
 Proof. exact capacity_covers_contents. Qed.
 Print Assumptions C18con_capacity_covers_contents.
-
-(* SetNumObjects(n), n < NumObjects(): the cut-off elements are never destructed *)
-Theorem C18con_SetNumObjects_shrink_refuted :
-  exists ops, run 1 ops <> spec_run 1 ops.
-Proof. exact setnum_shrink_refuted. Qed.
-Print Assumptions C18con_SetNumObjects_shrink_refuted.
 
 (* InsertObjectAt without reallocation: move-assignment / assignment to the raw cell behind
    the last element; the inserted-over element is lost *)
@@ -99,10 +95,21 @@ Example C18con_demo_capacities :
    [6; 0]; [2; 0]; [4; 0]; [4; 0]; [0; 0]].
 Proof. vm_compute. reflexivity. Qed.
 
-(* ---- what the model (and the real code) shows on the four witnesses --------------------------- *)
-Example C18con_witness_SetNumObjects :
-  map (fun o => (o_slots o, o_live o, o_bad o)) (run 1 [OAdd 0 1%Z; OSetNum 0 0]) =
-  [([[1]], 1, 0%N); ([[]], 1, 0%N)]%Z.                          (* specification: live = 0 *)
+(* ---- what the model (and the real code) shows on the three witnesses --------------------------- *)
+(* the former witness against SetNumObjects (n < NumObjects()): model and specification agree,
+   the cut-off elements are destructed (live drops with the length) *)
+Example C18con_SetNumObjects_shrink :
+  safe_hist 1 [OAdd 0 1%Z; OAdd 0 2%Z; OAdd 0 3%Z; OSetNum 0 1; OAdd 0 7%Z; OSetNum 0 0] = true /\
+  run 1 [OAdd 0 1%Z; OAdd 0 2%Z; OAdd 0 3%Z; OSetNum 0 1; OAdd 0 7%Z; OSetNum 0 0] =
+  spec_run 1 [OAdd 0 1%Z; OAdd 0 2%Z; OAdd 0 3%Z; OSetNum 0 1; OAdd 0 7%Z; OSetNum 0 0] /\
+  map (fun o => (o_slots o, o_live o, o_bad o))
+      (run 1 [OAdd 0 1%Z; OAdd 0 2%Z; OAdd 0 3%Z; OSetNum 0 1; OAdd 0 7%Z; OSetNum 0 0]) =
+  [([[1]], 1, 0%N); ([[1; 2]], 2, 0%N); ([[1; 2; 3]], 3, 0%N); ([[1]], 1, 0%N);
+   ([[1; 7]], 2, 0%N); ([[]], 0, 0%N)]%Z.
+Proof. vm_compute. repeat split; reflexivity. Qed.
+
+Example C18con_SetNumObjects_old_witness :
+  run 1 [OAdd 0 1%Z; OSetNum 0 0] = spec_run 1 [OAdd 0 1%Z; OSetNum 0 0].
 Proof. vm_compute. reflexivity. Qed.
 
 Example C18con_witness_InsertObjectAt_in_place :
